@@ -302,6 +302,8 @@ def iter_next(ex, st, it):
         if pos < len(vec.items):
             for st2 in ex.branch(st, vec.len > pos):
                 item = Ref(base.cell, base.projs + (("index", pos),))
+                if it.e == "owned":  # Vec<T>::into_iter yields the elements themselves
+                    item = vec.items[pos]
                 if it.e == "pairs":  # BTreeMap iteration yields (&K, &V)
                     item = Adt("tuple", None, (Ref(base.cell, base.projs + (("index", pos), ("field", 0, None))),
                                                Ref(base.cell, base.projs + (("index", pos), ("field", 1, None)))))
@@ -476,6 +478,38 @@ def m_slice_get(ex, st, callee, args, dest_ty):
             yield st3, some(Ref(base.cell, base.projs + (("index", k),)))
 
 
+def m_slice_first(ex, st, callee, args, dest_ty):
+    r = args[0]
+    base = r
+    while isinstance(ex.read(st, base.cell, base.projs), Ref):
+        base = ex.read(st, base.cell, base.projs)
+    v = ex.read(st, base.cell, base.projs)
+    for st2 in ex.branch(st, v.len == 0):
+        yield st2, none()
+    if len(v.items) > 0:
+        for st2 in ex.branch(st, v.len > 0):
+            yield st2, some(Ref(base.cell, base.projs + (("index", 0),)))
+    else:
+        for st2 in ex.branch(st, v.len > 0):
+            yield st2, some(Ref(ex.new_cell(st2, Opaque("Value"), "elem")))
+
+
+def m_opt_cloned(ex, st, callee, args, dest_ty):
+    v = args[0]
+    alts = {"None": ()}
+    if "Some" in v.alts:
+        alts["Some"] = (deref(ex, st, v.alts["Some"][0]),)
+    yield st, En("Option", v.disc, alts)
+
+
+def m_vec_into_iter_owned(ex, st, callee, args, dest_ty):
+    v = args[0]
+    if not isinstance(v, VecV):
+        raise MirUnsupported("into_iter of %r" % (v,))
+    base = Ref(ex.new_cell(st, v, "into_iter"))
+    yield st, Opaque("SliceIter", "owned", (base, 0))
+
+
 def m_vec_into_iter_ref(ex, st, callee, args, dest_ty):
     r = args[0]
     base = r
@@ -511,8 +545,12 @@ VALUE_MODELS = [
     (R(r"^<DateTime<FixedOffset> as Ord>::cmp$"), m_datetime_cmp),
     (R(r"^core::slice::<impl \[.*\]>::iter(_mut)?$"), m_slice_iter),
     (R(r"^core::slice::<impl \[.*\]>::reverse$"), m_slice_reverse),
+    (R(r"^core::slice::<impl \[.*\]>::first$"), m_slice_first),
+    (R(r"^Option::<&.*>::cloned$"), m_opt_cloned),
     (R(r"^core::slice::<impl \[.*\]>::get::<usize>$"), m_slice_get),
     (R(r"^<&(mut )?Vec<.*> as IntoIterator>::into_iter$"), m_vec_into_iter_ref),
+    (R(r"^<Vec<.*> as IntoIterator>::into_iter$"), m_vec_into_iter_owned),
+    (R(r"^<std::vec::IntoIter<.*> as Iterator>::next$"), m_iter_next),
     (R(r"^<(i|u)(\d+|size) as Into<FeelNumber>>::into$|^<FeelNumber as From<(i|u)(\d+|size)>>::from$"), m_int_into_number),
     (R(r"^BTreeMap::<.*>::new$|^<BTreeMap<.*> as Default>::default$"), m_btree_new),
     (R(r"^BTreeMap::<.*>::insert$"), m_btree_insert),
